@@ -206,6 +206,18 @@ theorem Holds.of_sat' {α} {S : StepRel} {x : M α} {c : Conn} {Q : Post α} (h 
     (herr : ∀ ex c' e, S.R c c' e → Q (.error ex) c' e) : Holds x c Q :=
   Holds.of_spec (S := fun _ c' e => S.R c c' e) (h.out c) hok herr
 
+theorem Sat.of_holds {α} {S : StepRel} {x : M α} (h : ∀ c, Holds x c (fun _ c' e => S.R c c' e)) :
+    Sat S x := ⟨h⟩
+
+/-- `a ← liftE x; f a` where the continuation may use that `x` returned `a` -/
+theorem Sat.liftE_bind {α β} {S : StepRel} {x : Except Exc α} {f : α → M β}
+    (h : ∀ a, x = .ok a → Sat S (f a)) : Sat S (M.liftE x >>= f) := by
+  refine ⟨fun c => ?_⟩
+  rw [bind_apply]
+  cases x with
+  | ok a => simpa [M.liftE] using S.trans (S.refl c) ((h a rfl).out c)
+  | error ex => exact S.refl c
+
 theorem Holds.elim {α} {x : M α} {c : Conn} {Q : Post α} (h : Holds x c Q) :
     Q (x c).res (x c).conn (x c).eff := h
 
